@@ -15,7 +15,7 @@ LEVEL_TEXT = ('Static decision of the def-use chain: SolverParameters stores its
               'binds parameters.evolventDensity to the density parameter of the Evolvent it constructs; the Evolvent '
               'stores it in the attribute that bounds both level loops; nobody else writes that attribute; every trial '
               'point the library constructs is an image of that evolvent; the Method and Process of a Solver hold '
-              'the Evolvent its constructor built and nobody re-binds them.')
+              'the Evolvent its constructor built and nobody re-binds them; a table-driven descent keeps len(table) = density; no inner evolvent of another dimension or density answers the queries.')
 EXPLANATION = ('The chain parameter -> constructor argument -> attribute -> loop bound is followed on path summaries '
                'and the syntax of the two level loops. That the grid then has 2^m cells per axis is the digit '
                'arithmetic decided (partially) under C07.')
